@@ -687,7 +687,10 @@ struct RcSim
         c.site("a_lpf_iter"); double const ol = a_lpf_iter(lp, x);
         c.site("a_hpf_iter"); double const oh = a_hpf_iter(hp, x);
         double const ol2 = lp2(x), oh2 = hp2(x);
-        if (bits_of(ol2) != bits_of(ol) || bits_of(oh2) != bits_of(oh)) return c.fail("cxx-wrapper-disagrees", "a_lpf_iter", "operator() of the C++ filter objects gives %.17g / %.17g, the C API %.17g / %.17g", ol2, oh2, ol, oh);
+        // the members re-state the formula, so a last-bit difference between the two spellings is legitimate: compare with a tolerance
+        { double const tl2 = 8 * ulp_of(std::max(std::max(std::fabs(pl), std::fabs(x)), std::fabs(ol))), th2 = 8 * ulp_of(std::max(std::max(std::fabs(ph), std::fabs(x)), std::max(std::fabs(pin), std::fabs(oh))));
+          if (!(std::fabs(ol2 - ol) <= tl2) || !(std::fabs(oh2 - oh) <= th2)) return c.fail("cxx-wrapper-disagrees", "a_lpf_iter", "operator() of the C++ filter objects gives %.17g / %.17g, the C API %.17g / %.17g", ol2, oh2, ol, oh);
+          lp2.output = ol; hp2.output = oh; hp2.input = hp->input; } // keep the replica in step so that differences do not accumulate
         ++c.steps; ++since_reset;
         if (x < lo) lo = x; if (x > hi) hi = x;
         if (!std::isfinite(ol) || !std::isfinite(oh)) return c.fail("state-not-finite", "a_lpf_iter", "filter output not finite");
@@ -773,13 +776,18 @@ struct RcSim
             case F_GEN:
             {
                 // coefficient generators: fc, ts log-uniform over 24 decades
-                double const fc = std::pow(10.0, (double)((int64_t)(mag64(o.a[0]) % 2401) - 1200) / 100.0), ts = std::pow(10.0, (double)((int64_t)(mag64(o.a[1]) % 2401) - 1200) / 100.0);
+                // fc, ts log-uniform over 24 decades; every third call over (almost) the whole positive double range
+                bool const wide = (mag64(o.a[3]) % 3) == 0;
+                double const fc = wide ? std::pow(10.0, (double)((int64_t)(mag64(o.a[0]) % 6001) - 3000) / 10.0) : std::pow(10.0, (double)((int64_t)(mag64(o.a[0]) % 2401) - 1200) / 100.0);
+                double const ts = wide ? std::pow(10.0, (double)((int64_t)(mag64(o.a[1]) % 6001) - 3000) / 10.0) : std::pow(10.0, (double)((int64_t)(mag64(o.a[1]) % 2401) - 1200) / 100.0);
+                if (wide) c.st.add("probe.gen_extreme_arguments");
                 c.site("a_lpf_gen"); double const al = a_lpf_gen(fc, ts);
                 c.site("a_hpf_gen"); double const ah = a_hpf_gen(fc, ts);
-                { a_lpf tl; a_hpf th; tl.gen(fc, ts); th.gen(fc, ts); if (bits_of(tl.alpha) != bits_of(al) || bits_of(th.alpha) != bits_of(ah)) { c.fail("cxx-wrapper-disagrees", "a_lpf_gen", "gen() members and a_lpf_gen/a_hpf_gen disagree for fc=%g ts=%g", fc, ts); break; } }
+                auto close = [](double a, double b) { return std::fabs(a - b) <= 4 * ulp_of(std::max(std::fabs(a), std::fabs(b))) || (a != a && b != b); };
+                { a_lpf tl; a_hpf th; tl.gen(fc, ts); th.gen(fc, ts); if (!close(tl.alpha, al) || !close(th.alpha, ah)) { c.fail("cxx-wrapper-disagrees", "a_lpf_gen", "gen() members and a_lpf_gen/a_hpf_gen disagree beyond rounding for fc=%g ts=%g (%.17g vs %.17g, %.17g vs %.17g)", fc, ts, tl.alpha, al, th.alpha, ah); break; } }
                 { // initialiser macros of the headers
                     a_lpf ml = A_LPF_2(fc, ts); a_hpf mh = A_HPF_2(fc, ts); a_lpf m1 = A_LPF_1(al); a_hpf h1 = A_HPF_1(ah);
-                    if (bits_of(ml.alpha) != bits_of(al) || bits_of(mh.alpha) != bits_of(ah) || bits_of(A_LPF_GEN(fc, ts)) != bits_of(al) || bits_of(A_HPF_GEN(fc, ts)) != bits_of(ah) || ml.output != 0 || mh.output != 0 || mh.input != 0 || m1.alpha != al || m1.output != 0 || h1.alpha != ah || h1.output != 0 || h1.input != 0)
+                    if (!close(ml.alpha, al) || !close(mh.alpha, ah) || !close(A_LPF_GEN(fc, ts), al) || !close(A_HPF_GEN(fc, ts), ah) || ml.output != 0 || mh.output != 0 || mh.input != 0 || !close(m1.alpha, al) || m1.output != 0 || !close(h1.alpha, ah) || h1.output != 0 || h1.input != 0)
                     { c.fail("cxx-wrapper-disagrees", "A_LPF_GEN", "the initialiser macros A_LPF_* / A_HPF_* disagree with a_lpf_gen / a_hpf_gen / a zeroed state for fc=%g ts=%g", fc, ts); break; }
                 }
                 if (!(al >= 0 && al <= 1)) { c.fail("coefficient-outside-unit-interval", "a_lpf_gen", "a_lpf_gen(%g, %g) = %.17g", fc, ts, al); break; }
